@@ -61,12 +61,12 @@ def scenario(seed, cfg):
         if mode == 'stop' and early_stop is not None:
             # a stop request in one of the very first scheduling slots: after the first step of process() but before the producer's first step (1), ...
             for _ in range(early_stop): await asyncio.sleep(0)
-            state['stopped'] = True; pipe.stop()
+            state['stopped'] = True; log.append(('stop', -1, None)); pipe.stop()
         async def meddle():
             for _ in range(rnd.randrange(0, 5)):
                 for _ in range(rnd.randrange(1, 6)): await asyncio.sleep(0)
                 if mode == 'stop' and rnd.random() < 0.4 and not state['stopped']:
-                    state['stopped'] = True; pipe.stop()
+                    state['stopped'] = True; log.append(('stop', -1, None)); pipe.stop()
                 elif not state['stopped']:
                     try: pipe.concurrency = rnd.randrange(0, 5)
                     except Exception as e: problems.append('concurrency setter raised %s' % type(e).__name__)
@@ -104,6 +104,7 @@ def scenario(seed, cfg):
     seen = set()
     per_item = {}
     for ev, k, item in log:
+        if ev == 'stop': continue
         if ev == 'start':
             if (k, item) in seen: problems.append('task %d processed %s twice' % (k, item))
             seen.add((k, item))
@@ -115,6 +116,12 @@ def scenario(seed, cfg):
         for i in range(1, n_items + 1):
             ends = [k for ev, k, item in log if ev == 'end' and item == 'item-%d' % i]
             if ends != list(range(n_tasks)): problems.append('item-%d finished tasks %r of %d although nothing was stopped' % (i, ends, n_tasks))
+    # "after a stop request ... without taking further work": an item that was still waiting in the queue when stop was requested (not yet taken up by any worker)
+    # must not be started afterwards -- the poison pills overtake it
+    if ('stop', -1, None) in log:
+        at = log.index(('stop', -1, None))
+        late = [item for ev, k, item in log[at + 1:] if ev == 'start' and k == 0]
+        if late: problems.append('%d item(s) were taken up by a worker AFTER the stop request (first: %s); only items in flight may finish' % (len(late), late[0]))
     if len(taken_after_stop) > 1: problems.append('%d items were taken from the source after the stop request' % len(taken_after_stop))
     return problems
 
